@@ -102,6 +102,35 @@ pub fn run_cnf_util(case: &CnfUtilCase, st: &mut Stats) -> CaseResult {
                 cof.get(a)
             );
         }
+        // the conditioned formula's own bookkeeping: var_in_cnf = "some clause mentions the variable", for every variable
+        for u in 0..n {
+            let m2 = c2.clauses().iter().any(|c| c.iter().any(|l| l.label().value_usize() == u));
+            ensure!(
+                c2.var_in_cnf(VarLabel::new_usize(u)) == m2,
+                "C15/cnf-var-in-cnf",
+                "after condition(x{} = {}): var_in_cnf(x{}) = {} but the clauses of the result {} the variable: {}",
+                v,
+                b,
+                u,
+                c2.var_in_cnf(VarLabel::new_usize(u)),
+                if m2 { "mention" } else { "do not mention" },
+                c2
+            );
+        }
+        // a second conditioning on top of the first, same questions
+        if n >= 2 {
+            let v2 = (v + 1 + (case.cond.0 as usize >> 3) % (n - 1)) % n;
+            let c3 = c2.condition(Literal::new(VarLabel::new_usize(v2), !b));
+            let cof2 = cof.cofactor(v2, !b);
+            for a in 0..(1usize << n) {
+                let asg: Vec<bool> = (0..n).map(|i| (a >> i) & 1 == 1).collect();
+                ensure!(c3.eval(&asg) == cof2.get(a), "C15/cnf-condition", "condition(x{} = {}) then condition(x{} = {}) evaluates to {} on {:?}, the iterated cofactor is {}", v, b, v2, !b, c3.eval(&asg), asg, cof2.get(a));
+            }
+            for u in 0..n {
+                let m3 = c3.clauses().iter().any(|c| c.iter().any(|l| l.label().value_usize() == u));
+                ensure!(c3.var_in_cnf(VarLabel::new_usize(u)) == m3, "C15/cnf-var-in-cnf", "after two conditionings var_in_cnf(x{}) = {} but the clauses {} the variable", u, c3.var_in_cnf(VarLabel::new_usize(u)), if m3 { "mention" } else { "do not mention" });
+            }
+        }
         let mentions = c2.clauses().iter().any(|c| c.iter().any(|l| l.label().value_usize() == v));
         ensure!(
             !mentions && !c2.var_in_cnf(VarLabel::new_usize(v)),
